@@ -33,9 +33,10 @@ type cmpCfg struct {
 	HB      []string `json:"hb"`  // task before hook: none | ok | fail
 	HA      []string `json:"ha"`  // task after hook
 	UpFails []bool   `json:"upFails"`
-	Gr      []int    `json:"gr"`  // 0: stage of the pipeline that is run; 1: stage of the included pipeline
-	Inc     []bool   `json:"inc"` // the stage runs the included pipeline instead of a task
+	Gr      []int    `json:"gr"`     // 0: stage of the pipeline that is run; 1: stage of the included pipeline
+	Inc     []bool   `json:"inc"`    // the stage runs the included pipeline instead of a task
 	TAllow  []bool   `json:"tallow"` // the task itself allows failure
+	TOFail  []bool   `json:"-"`      // the failing command fails by exceeding the task's timeout (a different kind of error)
 }
 
 const cmpNCtx = 2
@@ -44,6 +45,7 @@ func randCompose(rng *rand.Rand, n int) cmpCfg {
 	c := cmpCfg{N: n, Deps: make([][]int, n), Cls: make([]string, n), NCmd: make([]int, n), FailAt: make([]int, n),
 		NVar: make([]int, n), Ctx: make([]int, n), HB: make([]string, n), HA: make([]string, n), UpFails: make([]bool, cmpNCtx)}
 	c.Gr, c.Inc, c.TAllow = make([]int, n), make([]bool, n), make([]bool, n)
+	c.TOFail = make([]bool, n)
 	// a third of the pipelines (of 3 stages or more) include another pipeline, once or twice
 	if n >= 3 && rng.Intn(3) == 0 {
 		inner := 1 + rng.Intn(2)
@@ -87,6 +89,9 @@ func randCompose(rng *rand.Rand, n int) cmpCfg {
 			c.HB[s-1] = []string{"none", "none", "ok", "ok", "fail"}[rng.Intn(5)]
 			c.HA[s-1] = []string{"none", "none", "ok", "ok", "fail"}[rng.Intn(5)]
 		}
+		// every third failing task (that does not allow failure itself) fails by timing out rather
+		// than by its exit status: to the scheduler a failure is a failure, whatever its kind
+		c.TOFail[s-1] = !c.TAllow[s-1] && rng.Intn(3) == 0
 	}
 	// two including stages: half of the time the second one depends on the first, the first allows
 	// failure and a stage of the included pipeline fails - the second inclusion finds the pipeline
@@ -154,6 +159,10 @@ func composeYAML(c cmpCfg, rng *rand.Rand) string {
 		if c.TAllow[s-1] {
 			b.WriteString("    allow_failure: true\n")
 		}
+		toFail := c.TOFail[s-1] && (c.Cls[s-1] == "FAIL" || c.Cls[s-1] == "FAILA")
+		if toFail {
+			b.WriteString("    timeout: 1s\n")
+		}
 		if c.HB[s-1] != "none" {
 			fmt.Fprintf(&b, "    before: [\"%s\"]\n", hook(c.HB[s-1], fmt.Sprintf("s%d-tb", s)))
 		}
@@ -166,7 +175,11 @@ func composeYAML(c cmpCfg, rng *rand.Rand) string {
 		b.WriteString("    command:\n")
 		for k := 1; k <= c.NCmd[s-1]; k++ {
 			if (c.Cls[s-1] == "FAIL" || c.Cls[s-1] == "FAILA") && k == c.FailAt[s-1] {
-				fmt.Fprintf(&b, "      - \"exit 3 # s%d-cmd\"\n", s)
+				if toFail {
+					fmt.Fprintf(&b, "      - \"sleep 20 # s%d-cmd\"\n", s)
+				} else {
+					fmt.Fprintf(&b, "      - \"exit 3 # s%d-cmd\"\n", s)
+				}
 			} else {
 				fmt.Fprintf(&b, "      - \"sleep 0.0%d # s%d-cmd\"\n", rng.Intn(4), s)
 			}
